@@ -262,6 +262,18 @@ void vf_harness_error(const char *fmt, ...) {
 	_exit(2);
 }
 
+/* a harness error that concerns one part of the enumeration only: it is reported (and makes the check fail with a harness
+ * error unless a violation is found elsewhere), the rest of the enumeration goes on */
+void vf_soft_error(const char *fmt, ...) {
+	char d[2000], l[2200];
+	va_list ap;
+	va_start(ap, fmt);
+	vsnprintf(d, sizeof d, fmt, ap);
+	va_end(ap);
+	snprintf(l, sizeof l, "HARNESS_ERROR %s\n", d);
+	out_line(l);
+}
+
 void vf_sample(const char *fmt, ...) {
 	va_list ap;
 	if (!S || S->nsamples >= NSAMP) return;
